@@ -272,7 +272,7 @@ def R5_crossing(run):
         for at in A.atoms(sw, {}, cut=True):
             c = at.cond()
             s = show(at.term)
-            if c and c[0] in ("Eq", "Ne") and "next_price" in s and "get_next_sqrt_prices" in s:
+            if c and c[0] in ("Eq", "Ne") and "next_price" in s and "sqrt_price_from_tick_index" in s:
                 eq_t = at.true_targets[0] if c[0] == "Eq" else at.false_targets[0]
                 ne_t = at.false_targets[0] if c[0] == "Eq" else at.true_targets[0]
                 if ub in cfg.reach(sw, eq_t) and not (ub in cfg.reach(sw, ne_t, cut_blocks=[at.block])):
